@@ -6,7 +6,7 @@
    oracle are NOT theorems here: they are measured by checks/c19.py and labelled as tests. *)
 Require Import List Arith Lia Bool ZArith QArith Qround Qcanon Permutation.
 From TK Require Import Mat_Sums Mat_Core Mat_Qc Spe_Model Spe_Spec Spe_Proof_Lists Spe_Proof_Index
-     Spe_Proof_Coord Spe_Proof_Closed Spe_Run_Model Spe_Proof_Run.
+     Spe_Proof_Coord Spe_Proof_Closed Spe_Run_Model Spe_Proof_Run Spe_Des_Model Spe_Proof_Des.
 Import ListNotations.
 Local Open Scope nat_scope.
 
@@ -287,3 +287,237 @@ Example fa_nonvacuous :
   length (fa_embed (fun _ M => M) (fun _ _ => 0%F) (fun _ _ => false) 2 2 2 1 (qfrac 1 8)
                    (fun i j => qz 1) (fun i a => qz (Z.of_nat (i + 2 * a)))) = 2.
 Proof. split; [apply Qc_of_nat_neq0; lia|vm_compute; reflexivity]. Qed.
+
+(* ================================================================================================== *)
+(*  The methods as functions of the RANGE handed to tapkee::embed (Spe_Des_Model.v): `feat` / `dist`   *)
+(*  are the callbacks indexed by sample id, `range` is ANY list of ids (sub-range of the data, permuted, *)
+(*  offset / sparse ids, repeats); position i designates sample `at_pos range i` = begin[i].            *)
+(* ================================================================================================== *)
+
+(* ---- random projection on a range ------------------------------------------------------------------ *)
+Theorem rp_embed_range_is_designated : forall (F : Type) (Fo : FieldOps F) (Ff : IsField F)
+    (s : F) D d g (feat : nat -> vec F) range,
+  rp_embed_des s D d g feat range = rp_embed s (length range) D d g (fun i => feat (at_pos range i)).
+Proof. exact (@rp_embed_des_designated_proof). Qed.
+Print Assumptions rp_embed_range_is_designated.
+
+Theorem rp_row_is_projection_of_designated_sample : forall (F : Type) (Fo : FieldOps F)
+    (s : F) D d g (feat : nat -> vec F) range P i c,
+  D * d <= length g -> rp_embed_des s D d g feat range = Ok P -> i < length range -> c < d ->
+  mof P i c = sumn D (fun t => (nth (t * d + c) g 0 / s *
+                                (feat (at_pos range i) t - mean_des feat range t))%F).
+Proof. exact (@rp_row_designated_proof). Qed.
+Print Assumptions rp_row_is_projection_of_designated_sample.
+
+Example rp_row_is_projection_of_designated_sample_nonvacuous :
+  1 * 1 <= length [qz 1] /\ 1 < length [2; 3] /\
+  exists P, rp_embed_des (qz 1) 1 1 [qz 1] w_feat [2; 3] = Ok P.
+Proof. split; [cbn; lia|]. split; [cbn; lia|]. eexists. vm_compute. reflexivity. Qed.
+
+Theorem rp_depends_on_designated_samples_only : forall (F : Type) (Fo : FieldOps F) (Ff : IsField F)
+    (s : F) D d g (feat feat' : nat -> vec F) range range',
+  length range = length range' ->
+  (forall i t, i < length range -> t < D -> feat (at_pos range i) t = feat' (at_pos range' i) t) ->
+  rp_embed_des s D d g feat range = rp_embed_des s D d g feat' range'.
+Proof. exact (@rp_des_ext_proof). Qed.
+Print Assumptions rp_depends_on_designated_samples_only.
+
+Example rp_depends_on_designated_samples_only_nonvacuous :
+  length [2; 3] = length [0; 1] /\
+  forall i t, i < length [2; 3] -> t < 1 ->
+    w_feat (at_pos [2; 3] i) t = (fun id _ => qz (Z.of_nat (id + 2))) (at_pos [0; 1] i) t.
+Proof. split; [reflexivity|]. intros [|[|i]] t Hi _; cbn in Hi; try lia; reflexivity. Qed.
+
+Theorem rp_range_translation_invariant : forall (F : Type) (Fo : FieldOps F) (Ff : IsField F)
+    (s : F) D d g (t : vec F) (feat : nat -> vec F) range,
+  of_nat (length range) <> 0%F ->
+  rp_embed_des s D d g (fun id a => (feat id a + t a)%F) range = rp_embed_des s D d g feat range.
+Proof. exact (@rp_des_translation_invariant_proof). Qed.
+Print Assumptions rp_range_translation_invariant.
+
+Theorem rp_range_output_centred : forall (F : Type) (Fo : FieldOps F) (Ff : IsField F)
+    (s : F) D d g (feat : nat -> vec F) range P c,
+  of_nat (length range) <> 0%F -> c < d -> rp_embed_des s D d g feat range = Ok P ->
+  sumn (length range) (fun i => mof P i c) = 0%F.
+Proof. exact (@rp_des_output_centred_proof). Qed.
+Print Assumptions rp_range_output_centred.
+
+Example rp_range_nonvacuous : (@of_nat Qc _ (length [2; 3])) <> 0%F.
+Proof. apply Qc_of_nat_neq0. cbn. lia. Qed.
+
+(* regression theorem (seeded change C19_2): project() asking the callback for vector(loop counter) instead of
+   vector(begin[i]) returns other samples' projections and a non-centred embedding on a sub-range *)
+Theorem rp_positional_fetch_refuted :
+  exists (feat : nat -> vec Qc) range P P',
+    rp_embed_des (qz 1) 1 1 [qz 1] feat range = Ok P /\
+    rp_embed_pos (qz 1) 1 1 [qz 1] feat range = Ok P' /\
+    mof P 0 0 <> mof P' 0 0 /\
+    sumn (length range) (fun i => mof P i 0) = 0%F /\
+    sumn (length range) (fun i => mof P' i 0) <> 0%F.
+Proof. exact rp_positional_fetch_refuted_proof. Qed.
+Print Assumptions rp_positional_fetch_refuted.
+
+(* ---- factor analysis on a range --------------------------------------------------------------------- *)
+Theorem fa_embed_range_is_designated : forall (F : Type) (Fo : FieldOps F) (Ff : IsField F)
+    (inv : nat -> mat F -> mat F) (logdet : nat -> mat F -> F) (stop : F -> F -> bool)
+    T D d (eps : F) (A0 : mat F) (feat : nat -> vec F) range,
+  fa_embed_des inv logdet stop T D d eps A0 feat range =
+  fa_embed inv logdet stop T (length range) D d eps A0 (fun i => feat (at_pos range i)).
+Proof. exact (@fa_embed_des_designated_proof). Qed.
+Print Assumptions fa_embed_range_is_designated.
+
+Theorem fa_row_is_centred_designated_sample_times_loading :
+  forall (F : Type) (Fo : FieldOps F)
+    (inv : nat -> mat F -> mat F) (logdet : nat -> mat F -> F) (stop : F -> F -> bool)
+    T D d (eps : F) (A0 : mat F) (feat : nat -> vec F) range,
+  exists A : mat F, forall i c, i < length range -> c < d ->
+    mof (fa_embed_des inv logdet stop T D d eps A0 feat range) i c =
+    sumn D (fun t => ((feat (at_pos range i) t - mean_des feat range t) * A t c)%F).
+Proof. exact (@fa_row_designated_proof). Qed.
+Print Assumptions fa_row_is_centred_designated_sample_times_loading.
+
+Theorem fa_depends_on_designated_samples_only : forall (F : Type) (Fo : FieldOps F) (Ff : IsField F)
+    (inv : nat -> mat F -> mat F) (logdet : nat -> mat F -> F) (stop : F -> F -> bool)
+    T D d (eps : F) (A0 : mat F) (feat feat' : nat -> vec F) range range',
+  length range = length range' ->
+  (forall i t, i < length range -> t < D -> feat (at_pos range i) t = feat' (at_pos range' i) t) ->
+  fa_embed_des inv logdet stop T D d eps A0 feat range =
+  fa_embed_des inv logdet stop T D d eps A0 feat' range'.
+Proof. exact (@fa_des_ext_proof). Qed.
+Print Assumptions fa_depends_on_designated_samples_only.
+
+Theorem fa_range_translation_invariant : forall (F : Type) (Fo : FieldOps F) (Ff : IsField F)
+    (inv : nat -> mat F -> mat F) (logdet : nat -> mat F -> F) (stop : F -> F -> bool)
+    T D d (eps : F) (A0 : mat F) (t : vec F) (feat : nat -> vec F) range,
+  of_nat (length range) <> 0%F ->
+  fa_embed_des inv logdet stop T D d eps A0 (fun id a => (feat id a + t a)%F) range =
+  fa_embed_des inv logdet stop T D d eps A0 feat range.
+Proof. exact (@fa_des_translation_invariant_proof). Qed.
+Print Assumptions fa_range_translation_invariant.
+
+(* the EM loop of routines/fa.hpp = its never-stopping trajectory cut at the first round at which
+   `(iter > 1) && (fabs(newll - ll) < epsilon)` holds: the log-det and comparison oracles act only through
+   the round at which the loop is left (this is what the fa_epsilon > 0 replay of checks/c19.py relies on) *)
+Theorem fa_em_is_trajectory_cut_at_first_stop : forall (F : Type) (Fo : FieldOps F)
+    (inv : nat -> mat F -> mat F) (logdet : nat -> mat F -> F) (stop : F -> F -> bool)
+    n D d (eps : F) (X : mat F) fuel iter A sig ll,
+  fa_em inv logdet stop fuel iter n D d eps X A sig ll =
+  stop_round stop iter ll (fa_rounds inv logdet fuel n D d eps X A sig) A.
+Proof. exact (@fa_em_factor_proof). Qed.
+Print Assumptions fa_em_is_trajectory_cut_at_first_stop.
+
+Theorem fa_em_runs_all_rounds_when_never_stopped : forall (F : Type)
+    (tr : list (mat F * F)) iter ll A,
+  stop_round (fun _ _ => false) iter ll tr A = last (map fst tr) A.
+Proof. exact (@stop_round_never). Qed.
+Print Assumptions fa_em_runs_all_rounds_when_never_stopped.
+
+Theorem fa_observed_embeddings_are_trajectory : forall (F : Type) (Fo : FieldOps F)
+    (inv : nat -> mat F -> mat F) (logdet : nat -> mat F -> F) n D d (eps : F) (X : mat F) fuel A sig,
+  map (fun o => fst (fst o)) (fa_observe inv fuel n D d eps X A sig) =
+  map (fun Al => mtab n d (fun i c => sumn D (fun t => (X t i * fst Al t c)%F)))
+      (fa_rounds inv logdet fuel n D d eps X A sig).
+Proof. exact (@fa_observe_embeddings). Qed.
+Print Assumptions fa_observed_embeddings_are_trajectory.
+
+(* ---- SPE on a range ------------------------------------------------------------------------------------ *)
+Theorem spe_log_check_des_sound : forall range (global : bool) N nu k nbrs log,
+  spe_log_check_des range global N nu k nbrs log = None <->
+  Forall (fun sp => if global then global_iter_des_ok range N nu (fst sp) (snd sp)
+                    else local_iter_des_ok range N nu k nbrs (fst sp) (snd sp)) log.
+Proof. exact spe_log_check_des_none. Qed.
+Print Assumptions spe_log_check_des_sound.
+
+Theorem spe_distance_calls_designated_global : forall (old : bool) range nbrs nupd its,
+  let N := length range in
+  Forall (fun i => is_perm N (it_from i)) its ->
+  exists outs,
+    spe_indices old true nbrs nupd N its = Ok outs /\
+    spe_log_check_des range true N (Nat.min nupd (N / 2)) 0 nbrs
+                      (combine (map o_perm outs) (spe_distance_calls range outs)) = None.
+Proof. exact spe_distance_calls_global_proof. Qed.
+Print Assumptions spe_distance_calls_designated_global.
+
+Example spe_distance_calls_designated_global_nonvacuous :
+  Forall (fun i => is_perm (length [10; 11; 12; 13; 14; 15]) (it_from i)) w_its.
+Proof. exact (Forall_impl _ (fun i H => proj1 H) w_its_ok). Qed.
+
+Theorem spe_distance_calls_designated_local : forall range nbrs nupd its,
+  let N := length range in
+  let k := length (nth 0 nbrs []) in
+  let nu := Nat.min nupd (N / 2) in
+  0 < N -> 0 < k -> nbrs_ok N k nbrs ->
+  Forall (fun i => is_perm N (it_from i) /\ us_ok nu (it_us i)) its ->
+  exists outs,
+    spe_indices false false nbrs nupd N its = Ok outs /\
+    spe_log_check_des range false N nu k nbrs
+                      (combine (map o_perm outs) (spe_distance_calls range outs)) = None.
+Proof. exact spe_distance_calls_local_proof. Qed.
+Print Assumptions spe_distance_calls_designated_local.
+
+Example spe_distance_calls_designated_local_nonvacuous :
+  let range := [15; 10; 14; 11; 13; 12] in
+  0 < length range /\ 0 < length (nth 0 w_nbrs []) /\ nbrs_ok (length range) (length (nth 0 w_nbrs [])) w_nbrs /\
+  Forall (fun i => is_perm (length range) (it_from i) /\ us_ok (Nat.min 3 (length range / 2)) (it_us i)) w_its.
+Proof. repeat split; try (cbn; lia); [apply w_nbrs_ok|exact w_its_ok]. Qed.
+
+Theorem spe_run_depends_on_designated_distances_global :
+  forall (F : Type) (Fo : FieldOps F)
+    (old : bool) nbrs nupd range range' its (norms : list (list F)) (tol alpha : F)
+    (dist dist' : nat -> nat -> F) (Y0 : pts),
+  length range = length range' ->
+  (forall a b, a < length range -> b < length range ->
+               dist (at_pos range a) (at_pos range b) = dist' (at_pos range' a) (at_pos range' b)) ->
+  Forall (fun i => is_perm (length range) (it_from i)) its ->
+  spe_embedding_run_des old true nbrs nupd range its norms tol alpha dist Y0 =
+  spe_embedding_run_des old true nbrs nupd range' its norms tol alpha dist' Y0.
+Proof. exact (@spe_run_des_ext_global_proof). Qed.
+Print Assumptions spe_run_depends_on_designated_distances_global.
+
+Theorem spe_run_depends_on_designated_distances_local :
+  forall (F : Type) (Fo : FieldOps F)
+    nbrs nupd range range' its (norms : list (list F)) (tol alpha : F)
+    (dist dist' : nat -> nat -> F) (Y0 : pts),
+  let N := length range in
+  let k := length (nth 0 nbrs []) in
+  let nu := Nat.min nupd (N / 2) in
+  length range = length range' ->
+  (forall a b, a < N -> b < N ->
+               dist (at_pos range a) (at_pos range b) = dist' (at_pos range' a) (at_pos range' b)) ->
+  0 < N -> 0 < k -> nbrs_ok N k nbrs -> nbrs_below N nbrs ->
+  Forall (fun i => is_perm N (it_from i) /\ us_ok nu (it_us i)) its ->
+  spe_embedding_run_des false false nbrs nupd range its norms tol alpha dist Y0 =
+  spe_embedding_run_des false false nbrs nupd range' its norms tol alpha dist' Y0.
+Proof. exact (@spe_run_des_ext_local_proof). Qed.
+Print Assumptions spe_run_depends_on_designated_distances_local.
+
+(* ---- the shipped polar method (defines/random.hpp gaussian_random) -------------------------------------- *)
+Theorem polar_accepts_open_disc : forall M fuel rs x s rest,
+  polar_loop fuel M rs = Ok (x, s, rest) ->
+  (0 < s)%Q /\ (s < 1)%Q /\ (x * x <= s)%Q /\
+  exists pre y, rs = pre ++ rest /\ Nat.Even (length pre) /\ (s == x * x + y * y)%Q /\
+                exists r1 r2 pre', pre = pre' ++ [r1; r2] /\
+                                  x = polar_coord M r1 /\ y = polar_coord M r2.
+Proof. exact polar_loop_accept_proof. Qed.
+Print Assumptions polar_accepts_open_disc.
+
+Example polar_accepts_open_disc_nonvacuous :
+  exists x s rest, polar_loop 4 8 [7; 7; 3; 5; 1]%Z = Ok (x, s, rest) /\ rest = [1%Z].
+Proof. eexists. eexists. eexists. split; vm_compute; reflexivity. Qed.
+
+Theorem polar_first_point_in_disc_is_returned : forall M fuel r1 r2 rest,
+  let x := polar_coord M r1 in
+  let y := polar_coord M r2 in
+  ((0 < x * x + y * y)%Q /\ (x * x + y * y < 1)%Q ->
+   polar_loop (S fuel) M (r1 :: r2 :: rest) = Ok (x, (x * x + y * y)%Q, rest)) /\
+  (~ ((0 < x * x + y * y)%Q /\ (x * x + y * y < 1)%Q) ->
+   polar_loop (S fuel) M (r1 :: r2 :: rest) = polar_loop fuel M rest).
+Proof. exact polar_loop_first_proof. Qed.
+Print Assumptions polar_first_point_in_disc_is_returned.
+
+Theorem polar_matrix_one_accepted_attempt_per_entry : forall fuel M count rs l rest,
+  polar_fill fuel M count rs = Ok (l, rest) ->
+  length l = count /\
+  Forall (fun xs => (0 < snd xs)%Q /\ (snd xs < 1)%Q /\ (fst xs * fst xs <= snd xs)%Q) l.
+Proof. exact polar_fill_count_proof. Qed.
+Print Assumptions polar_matrix_one_accepted_attempt_per_entry.
